@@ -84,6 +84,8 @@ def main():
             except Exception:
                 pass
         bens = sorted(glob.glob(os.path.join(VERIF, "selftest", pid, "benign", "*.patch")))
+        # behaviour-preserving refactorings that every property must stay silent on
+        bens += sorted(glob.glob(os.path.join(VERIF, "selftest", "ALL", "benign", "*.patch")))
         for m in muts + bens:
             jobs[m] = ex.submit(scratch_run, pid, repo, m)
         for k, f in jobs.items():
